@@ -93,3 +93,49 @@ PROPS['C12'] = dict(
                                  'USE_DOUBLE=0 jobs use 1e-5 instead of 1e-6/1e-13 (don\'t-care 14)'],
     extra_coverage={'floats_printed': lambda agg, d: agg['counters'].get('floats_printed', 0)},
 )
+
+
+# ---------------------------------------------------------------- C04
+TINY = [
+    {'ARDUINOJSON_POOL_CAPACITY': 2, 'ARDUINOJSON_INITIAL_POOL_COUNT': 1, 'ARDUINOJSON_SLOT_ID_SIZE': 2, 'ARDUINOJSON_DEBUG': 1},
+    {'ARDUINOJSON_POOL_CAPACITY': 4, 'ARDUINOJSON_INITIAL_POOL_COUNT': 2, 'ARDUINOJSON_SLOT_ID_SIZE': 1},
+]
+
+
+def c04_jobs(tier):
+    jobs = [
+        Job('hist-default', 'c04', 'hist', q(tier, 30000, 600000), timeout=q(tier, 900, 10000)),
+        Job('hist-tiny-pools', 'c04', 'hist', q(tier, 15000, 300000), defines=TINY[0], timeout=q(tier, 900, 10000)),
+        Job('hist-1byte-ids', 'c04', 'hist', q(tier, 15000, 300000), defines=TINY[1], timeout=q(tier, 900, 10000)),
+        Job('small-tiny', 'c04', 'small%d' % q(tier, 4, 5), 0, defines=TINY[0], timeout=q(tier, 900, 20000)),
+        Job('small-default', 'c04', 'small%d' % q(tier, 4, 5), 0, timeout=q(tier, 900, 20000)),
+        Job('alias-probe', 'c04', 'alias', q(tier, 160, 3000), max_crashes=1000, timeout=q(tier, 900, 7200)),
+    ]
+    if tier == 'thorough':
+        jobs += [Job('small-1byte', 'c04', 'small5', 0, defines=TINY[1], timeout=20000),
+                 Job('hist-float', 'c04', 'hist', 100000, defines={'ARDUINOJSON_USE_DOUBLE': 0, 'ARDUINOJSON_STRING_LENGTH_SIZE': 1}, timeout=10000)]
+    return jobs
+
+
+PROPS['C04'] = dict(
+    level='exploration',
+    rule='API histories generated from the model state (up to 3 documents, 6 live references, proxy chains up to depth 3 incl. insertion beyond the end, '
+         'few keys and small indices so that slots are recycled; 23 operation kinds: typed set/add, to<T>, add<T>, remove by index/key/iterator, clear, '
+         'value<-value copies between disjoint values and documents, document copy/move/swap/set/clear/shrinkToFit, deserializeJson/MsgPack into documents '
+         'and nested values, read-only probes) of 10..1500 steps; plus ALL sequences of length <= L over a fixed 16-operation alphabet on tiny pool geometries; '
+         'plus aliasing assignments (self / ancestor / descendant) as final step (known-finding probe). After every step: every document and every live reference '
+         'extracted through the public API == ordered-tree model, inspector invariants, and observation must neither call the allocator nor change the concrete state hash. '
+         'non-trivial = history of >= 10 steps (distinct by operation log) or a systematic sequence',
+    jobs=c04_jobs,
+    exhaustive=lambda tier: False,
+    min_evaluations=dict(quick=50000, thorough=1000000),
+    technique='model-based runtime monitoring: generated API histories executed on the real library under ASan+UBSan, compared after every step with an executable ordered-tree model; structural invariants through a read-only inspector hook; small-scope enumeration used as workload',
+    level_text='Exploration: long random histories plus bounded-exhaustive short histories on tiny pools, each step judged by the model and by structural invariants; the small-scope part is complete for its 16-operation alphabet and length bound.',
+    level_note='The sequential model (DESIGN.md Appendix A) is itself a reading of the API; it agreed with the library on every non-aliasing history observed. Aliasing assignments are known findings.',
+    assumptions=COMMON_ASSUME + ['references held across clear/shrinkToFit/deserialize/swap/move of their document are dropped (don\'t-care 8)',
+                                 'the boolean result of a write through an unbound reference is not judged (don\'t-care 15)'],
+    extra_coverage={'distinct_concrete_states': lambda agg, d: d.get('concrete_states', 0), 'distinct_model_states': lambda agg, d: d.get('model_states', 0),
+                    'history_steps': lambda agg, d: agg['counters'].get('history_steps', 0)},
+    must_observe={'live reference reads': lambda agg, d: agg['counters'].get('live_reference_reads', 0) > 0,
+                  'states with recycled slots': lambda agg, d: agg['counters'].get('states_with_free_slots', 0) > 0},
+)
